@@ -202,7 +202,12 @@ func (g *senGen) value(b *strings.Builder, depth int) {
 				g.sep(b)
 			}
 			if k := sim.Intn(g.t, 5, "keykind"); k < 2 {
-				b.WriteString(senToken(g.t))
+				if sim.Intn(g.t, 6, "kwkey") == 5 {
+					// a key that reads like a literal (the SEN writer itself leaves such keys unquoted)
+					b.WriteString([]string{"null", "true", "false", "nulls", "truer", "falsey"}[sim.Intn(g.t, 6, "kw")])
+				} else {
+					b.WriteString(senToken(g.t))
+				}
 			} else if k == 2 {
 				b.WriteByte('\'')
 				b.WriteString(strings.ReplaceAll(keyPool[sim.Intn(g.t, len(keyPool), "key")], "'", "x"))
